@@ -382,3 +382,45 @@ Proof.
     rewrite <- app_assoc. eexists. reflexivity.
   - cbn [fst]. eexists. reflexivity.
 Qed.
+
+(* ---- the whole walk never fails on empty or vanishing directories: the repaired code can only
+   raise the ValueError of an impossible calendar date in a subdirectory name *)
+Definition benign (e : option err) : Prop := e = None \/ e = Some ValueErrorE.
+
+Lemma yield_matching_benign o dirs props : benign (snd (fst (yield_matching fixed o dirs props))).
+Proof.
+  unfold yield_matching, benign.
+  destruct (file_regex _ _ (o_flags o)) as [[r ydmd]|]; [|left; reflexivity].
+  destruct (classify_dirs r dirs) as [[subs others]|]; [|right; reflexivity].
+  cbn [fst snd]. left. apply never_fails.
+Qed.
+
+Lemma seq_named_benign l : (forall nm out e, In (nm, (out, e)) l -> benign e) -> benign (snd (seq_named l)).
+Proof.
+  induction l as [|[nm [out e]] l IH]; intro H; cbn; [left; reflexivity|].
+  destruct e as [e|]; cbn.
+  - exact (H nm out (Some e) (or_introl eq_refl)).
+  - apply IH. intros nm' out' e' Hin. eapply H. right. exact Hin.
+Qed.
+
+Theorem walk_never_fails o : forall t, benign (snd (walk fixed o t)).
+Proof.
+  intro t. induction t as [| |es IH] using node_ind2; try (left; reflexivity).
+  rewrite walk_dir. cbn zeta.
+  set (dirs := filter (fun e : word * node => is_dir (snd e)) es).
+  set (children := map (fun e : word * node => (fst e, walk fixed o (snd e))) es).
+  assert (Hchild : forall names,
+            benign (snd (seq_named (flat_map (fun nm => match assoc nm children with Some res => [(nm, res)] | None => [] end) names)))).
+  { intro names. apply seq_named_benign. intros nm out e Hin.
+    apply in_flat_map in Hin as (nm' & _ & Hin). destruct (assoc nm' children) as [res|] eqn:Ea; [|contradiction].
+    destruct Hin as [Hin|[]]. injection Hin as Hn Hres. subst nm' res. apply assoc_in in Ea. unfold children in Ea.
+    apply in_map_iff in Ea as ([nm0 c] & Heq & Hc). cbn [fst snd] in Heq. injection Heq as Hn Hw. subst nm0.
+    pose proof (IH nm c Hc) as Hb. rewrite Hw in Hb. exact Hb. }
+  destruct (props_of es) as [|pf0 pfs] eqn:Eprops.
+  - cbn [snd]. apply Hchild.
+  - destruct (inc_drf (o_flags o) || inc_dmd (o_flags o)).
+    + pose proof (yield_matching_benign o dirs (pf0 :: pfs)) as Hy.
+      destruct (yield_matching fixed o dirs (pf0 :: pfs)) as [[out e] dirs']. cbn [fst snd] in Hy.
+      destruct e as [x|]; cbn [snd]; [exact Hy|apply Hchild].
+    + cbn [snd]. apply Hchild.
+Qed.
